@@ -205,7 +205,10 @@ def main():
         if intense:
             log("source files changed with respect to the validated baseline (%s): thorough generators, frame budget %d"
                 % (", ".join(changed[:6]), intensify.FRAME_BUDGET))
-            scripts = list(prop.corpus()) + list(intensify.capped(prop.generate("thorough", rng)))
+            # the quick stream in full (intensification only ever ADDS to what a quick run explores), then a
+            # budgeted prefix of the thorough stream drawn from an independent generator state
+            scripts = list(prop.corpus()) + list(prop.generate(tier, rng)) + \
+                list(intensify.capped(prop.generate("thorough", random.Random(seed + 7919))))
         else:
             scripts = list(prop.corpus()) + list(prop.generate(tier, rng))
     issues, stats = evaluate(prop, scripts, drivers) if scripts else ([], {"frames": 0})
